@@ -136,7 +136,7 @@ func vExportNoPanic(c *JApiCore) {
 func HEmitCases() {
 	patterns := []string{"ab+", "[", "a(", "+", "*a", "a{2", "\\", "(?P<x>a)", "a|b", "", "[a-z]{2,}", "\\x01",
 		"[^\\x00-\\x7F]+", "[^\\s\\S]x", "a|[^\\x00-\\x7F]"} // classes without a printable character: the example generator cannot serve them
-	nDocs := 19
+	nDocs := 21
 	di := vInt("doc", 0, nDocs-1)
 	pat, pr := "", ""
 	if di <= 4 || di == 15 {
@@ -175,6 +175,8 @@ func HEmitCases() {
 		"GET /a\n  200\n  // todo\n",                                                            // a body that holds nothing but a comment
 		"URL /rpc\n  Protocol json-rpc-2.0\n  Method m\n    Params\n    /* later */\n    Result\n    // c\n", // the same for Params / Result
 		"POST /a\n  Request\n    Body\n    // c\n  200\n    Body\n    // c\n",                       // and for Body directives
+		"GET /a\n  200 any\nTYPE @t\n# todo\n",                                                  // a TYPE whose body is a comment, at the end of the file
+		"GET /a\n  200 @t\nTYPE @t\n  // {min: 1}\n",                                             // the same, referred to
 	}
 	vAssert(len(docs) == nDocs, "bad-fixture-count")
 	c, je := vBuildText("JSIGHT 0.3\n" + docs[di])
